@@ -170,6 +170,7 @@ fn chunk_case(cx: &mut Cx) {
         return;
     }
     cx.eval();
+    cx.sample(w.clone());
     let delivered: Vec<&str> = cs.delivered.iter().filter_map(|(_, _, ri)| if first_terminal { ri.checked_sub(1) } else { Some(*ri) }).filter_map(|i| classes.get(i).copied()).collect();
     if delivered.iter().any(|c| *c != "honest") {
         cx.nontrivial(&("chunk", &classes, first_terminal, format!("{terminal:?}")));
@@ -264,6 +265,7 @@ fn data_case(cx: &mut Cx) {
         return;
     }
     cx.eval();
+    cx.sample(w.clone());
     if victim_served && !honest_control {
         cx.nontrivial(&("data", public, victim_name, sub_class, data_a.len()));
     }
@@ -390,6 +392,7 @@ fn vault_case(cx: &mut Cx) {
         return;
     }
     cx.eval();
+    cx.sample(w.clone());
     if wrong_key_asked {
         cx.violation("vault-read-asked-for-another-key", "the client did not ask for the scratchpad address of the owner's key", w.clone());
     }
